@@ -245,6 +245,10 @@ VF_TN(int, "i32")
 VF_TN(unsigned, "u32")
 VF_TN(long, "i64")
 VF_TN(unsigned long, "u64")
+VF_TN(wchar_t, "wchar")
+VF_TN(char8_t, "char8")
+VF_TN(char16_t, "char16")
+VF_TN(char32_t, "char32")
 VF_TN(long long, "ll64")
 VF_TN(unsigned long long, "ull64")
 VF_TN(__int128, "i128")
